@@ -1,6 +1,7 @@
 """C04 - responses are decoded per documented status and media type."""
 from __future__ import annotations
 
+import copy
 import datetime as dt
 import enum
 import json
@@ -47,7 +48,15 @@ def cases(draw, tier):
     ir = draw(docs.doc_ir(prof))
     comps = docs.comp_map(ir)
     serves = []
+    shared = None
+    if len(ir["ops"]) >= 2 and draw(st.integers(0, 2)) == 0:
+        # one response declared once under components.responses and used by every operation under the same status; its schema is
+        # an inline object (or an array of one), so a class has to be named for it
+        inline = {"k": "object", "props": [["detail", {"k": "str"}, True], ["code", {"k": "int"}, False]], "addl": None, "allOf": []}
+        shared = [422, ["application/json", inline if draw(st.booleans()) else {"k": "array", "items": inline}]]
     for oi, op in enumerate(ir["ops"]):
+        if shared is not None and not any(x[0] == 422 for x in op["responses"]):
+            op["responses"].append(copy.deepcopy(shared))
         op["params"] = [p for p in op["params"] if p["in"] == "path"]
         for p in op["params"]:
             p["schema"] = {"k": "int"}
@@ -95,7 +104,7 @@ def cases(draw, tier):
                            "body": draw(st.sampled_from([None, {"json": {"a": 1}}, {"text": "oops"}, {"bytes": "\xff\xfe\x00"}])),
                            "raise": draw(st.booleans()),
                            "variant": draw(st.sampled_from(["sync_detailed", "sync", "asyncio_detailed", "asyncio"]))})
-    case = {"ir": ir, "cfg": {"literal_enums": draw(st.booleans())}, "serves": serves}
+    case = {"ir": ir, "cfg": {"literal_enums": draw(st.booleans())}, "serves": serves, "shared_422": shared is not None}
     if draw(st.integers(0, 4)) == 0:
         # every response media type is written under an alias that the configuration maps back (content_type_overrides): the
         # responses must be decoded exactly as if the real media type had been written
@@ -204,6 +213,13 @@ def run(case, ctx):
         if overrides:
             cfg["content_type_overrides"] = overrides
             ctx.label("aliased_media_types")
+    if case.get("shared_422"):
+        users = [o for item in doc["paths"].values() for m, o in item.items() if m in docs.METHODS and "422" in (o.get("responses") or {})]
+        if len(users) >= 2 and all(u["responses"]["422"] == users[0]["responses"]["422"] for u in users):
+            doc.setdefault("components", {}).setdefault("responses", {})["ZzUnprocessable"] = copy.deepcopy(users[0]["responses"]["422"])
+            for u in users:
+                u["responses"]["422"] = {"$ref": "#/components/responses/ZzUnprocessable"}
+            ctx.label("one_component_response_shared_by_operations")
     if case.get("by_ref"):
         from . import c20
 
